@@ -14,7 +14,11 @@ from .core import INT, BYTE, BOOL, STRING, EMPTY, is_arr, arr, ptype
 
 
 class Reject(Exception):
-    pass
+    """A documented rule is broken.  kind: 'type' (typing rule) or 'context' (placement rule of C06)."""
+
+    def __init__(self, msg, kind='type'):
+        super().__init__(msg)
+        self.kind = kind
 
 
 class Unspecified(Exception):
@@ -61,8 +65,10 @@ def coercible(te, target):
         return True
     if te.t == STRING and target == arr(BYTE, True):
         return True
-    if te.t == INT and target == BYTE and te.shrink:
-        return True
+    if te.t == INT and target == BYTE:
+        if te.shrink is None:
+            raise Unspecified('literal-likeness of an explicitly cast literal')
+        return bool(te.shrink)
     return False
 
 
@@ -99,6 +105,8 @@ def cast(te, target):
                 raise Reject('nested array')
         return TE(None, target, lit_elems=elems, locked=True)
     if te.t == target:
+        if te.t == INT and te.shrink:
+            return TE(te.e, te.t, shrink=None)       # `5 is int`: still a literal?  README is silent
         return te
     s, t = te.t, target
     if s == EMPTY:
@@ -106,7 +114,7 @@ def cast(te, target):
     if (s, t) == (INT, BYTE):
         return TE(('cast', BYTE, 'i2b', te.e), BYTE)
     if (s, t) == (BYTE, INT):
-        return TE(('cast', INT, 'b2i', te.e), INT)
+        return TE(('cast', INT, 'b2i', te.e), INT, shrink=None if te.e[0] == 'lit' else False)
     if t == BOOL:
         if s == STRING or is_arr(s):
             return TE(('cast', BOOL, 'len2bool', te.e), BOOL)
@@ -114,7 +122,7 @@ def cast(te, target):
             return TE(('cast', BOOL, 'int2bool', te.e), BOOL)
     if s == BOOL and t in (INT, BYTE):
         # a bool is 0/1; doc leaves literal-likeness of the result open
-        return TE(('cast', t, 'bool2int', te.e), t, shrink=False)
+        return TE(('cast', t, 'bool2int', te.e), t, shrink=None if te.e[0] == 'lit' else False)
     if s == STRING and is_arr(t) and t[1] == BYTE:
         return TE(('cast', arr(BYTE, True), 'str2arr', te.e), arr(BYTE, True))
     if is_arr(s) and is_arr(t) and s[1] == t[1]:
@@ -122,6 +130,14 @@ def cast(te, target):
             raise Unspecified('explicit cast of a mutable array to its const type')
         raise Reject('cannot cast const array to mutable')
     raise Reject(f'{ptype(s)} is not {ptype(t)}')
+
+
+def _bytelike(te):
+    """Is the operand coercible to byte?  True / False / None (unspecified)."""
+    try:
+        return coercible(te, BYTE)
+    except Unspecified:
+        return None
 
 
 class Scope:
@@ -191,7 +207,7 @@ class Typer:
             a = self.expr(e[2], sc)
             if op == 'not':
                 return TE(('un', BOOL, 'not', cast(a, BOOL).e), BOOL)
-            sh = coercible(a, BYTE)
+            sh = _bytelike(a)
             ai = coerce(a, INT)
             return TE(('un', INT, op, ai.e), INT, shrink=sh)
         if k == 'bin':
@@ -206,7 +222,8 @@ class Typer:
                 return TE(('bin', BOOL, op, coerce(a, INT).e, coerce(b, INT).e), BOOL)
             if op in ('<', '<=', '>', '>='):
                 return TE(('bin', BOOL, op, coerce(a, INT).e, coerce(b, INT).e), BOOL)
-            sh = coercible(a, BYTE) and coercible(b, BYTE)
+            sa, sb = _bytelike(a), _bytelike(b)
+            sh = False if (sa is False or sb is False) else (None if (sa is None or sb is None) else True)
             return TE(('bin', INT, op, coerce(a, INT).e, coerce(b, INT).e), INT, shrink=sh)
         if k == 'is':
             a = self.expr(e[1], sc)
@@ -338,7 +355,7 @@ class Typer:
             return ('block', tuple(out))
         if k == 'break' or k == 'continue':
             if not loop:
-                raise Reject(f'{k} outside of loop')
+                raise Reject(f'{k} outside of loop', 'context')
             return s
         if k == 'ret':
             if s[1] is not None:
@@ -368,7 +385,7 @@ class Typer:
         for name, params, ret in BUILTINS:
             self.funcs.setdefault(name, []).append((params, ret, ('builtin', name, params)))
         for i, (ret, name, params, body) in enumerate(prog['funcs']):
-            ptypes = tuple(t for t, _ in params)
+            ptypes = tuple(prm[0] for prm in params)
             for p2, _, _ in self.funcs.get(name, []):
                 if p2 == ptypes:
                     raise Reject(f'redefinition of {name}')
@@ -380,19 +397,90 @@ class Typer:
         funcs = []
         for ret, name, params, body in prog['funcs']:
             fsc = Scope(gsc)
-            for t, pn in params:
+            for prm in params:
+                t, pn = prm[0], prm[1]
                 prev, where = fsc.lookup(pn)
                 if prev is not None and not where.is_global:
                     raise Reject(f'duplicate parameter {pn}')
-                fsc.vars[pn] = (t, False)
+                fsc.vars[pn] = (t, len(prm) > 2 and bool(prm[2]))
             self.ret = ret
             b = self.fbody(body, fsc)
-            funcs.append((ret, name, tuple(pn for _, pn in params), b, has_preempt(body)))
+            if ret != EMPTY and can_complete(b):
+                raise Reject(f'missing return statement in {name}')
+            funcs.append((ret, name, tuple(prm[1] for prm in params), b, has_preempt(body)))
         return {'globals': tuple(globs), 'funcs': tuple(funcs), 'src': prog}
 
     def fbody(self, body, fsc):
         inner = Scope(fsc)
         return ('block', tuple(self.stmt(x, inner, False) for x in body[1]))
+
+
+NORETURN = {'!is_defeat', 'all_is_win', 'all_is_broken'}
+
+
+def can_complete(s):
+    """May the (elaborated) statement complete normally?  Conservative structural rule: return, break, continue,
+    !is_defeat(), all_is_win(), all_is_broken() never complete; a sequence completes if all its members do; if/else if
+    either branch does; a loop unless its condition is the literal true and its body contains no break of that loop;
+    a try if its body or its handler does; a preempt block always (it may be skipped)."""
+    k = s[0]
+    if k in ('ret', 'break', 'continue'):
+        return False
+    if k == 'expr':
+        e = s[1]
+        if e[0] == 'call' and e[2][0] == 'builtin' and e[2][1] in NORETURN and not e[3]:
+            return False
+        return True
+    if k == 'block':
+        for x in s[1]:
+            if not can_complete(x):
+                return False
+        return True
+    if k == 'if':
+        return can_complete(s[2]) or can_complete(s[3])
+    if k == 'loop':
+        cond = s[1]
+        if cond[0] == 'lit' and cond[2]:
+            return _has_break(s[2])
+        if _is_constant(cond):
+            raise Unspecified('loop with a constant, non-literal condition')
+        return True
+    if k == 'try':
+        return can_complete(s[1]) or can_complete(s[3])
+    if k == 'preempt':
+        return True
+    return True
+
+
+def _is_constant(e):
+    if e[0] == 'lit':
+        return True
+    if e[0] in ('un', 'cast'):
+        return _is_constant(e[3])
+    if e[0] == 'bin':
+        return _is_constant(e[3]) and _is_constant(e[4])
+    return False
+
+
+def _has_break(s):
+    """Does the statement contain a break that leaves the enclosing loop (and is reachable structurally)?"""
+    k = s[0]
+    if k == 'break':
+        return True
+    if k == 'block':
+        for x in s[1]:
+            if _has_break(x):
+                return True
+            if not can_complete(x):
+                return False
+        return False
+    if k == 'if':
+        return _has_break(s[2]) or _has_break(s[3])
+    if k == 'try':
+        return _has_break(s[1]) or _has_break(s[3])
+    if k == 'preempt':
+        return _has_break(s[1])
+    return False
 
 
 def has_preempt(s):
